@@ -255,6 +255,12 @@ def sympy_inplace(check, cls, s1, mom, prefix="sympy/inplace"):
                 check(f"{prefix}/{opname}/stored-{n}-equals-functional{sid}", False, f"{type(e).__name__}: {str(e)[:150]}")
 
 
+def histories_shard(seed):
+    ob = O.Obligations("C15")
+    histories(ob, seed)
+    return ob.n, ob.bad
+
+
 def histories(ob, seed):
     """bounded cross-check of the induction: random histories of 4 steps; after each step the object equals (term identity) the
     one built functionally from the pre-state getters"""
@@ -301,11 +307,13 @@ def main(argv):
     replace_data_control_flow(ob)
     sympy_part(ob)
     n_sym = ob.n
-    nb0 = len(ob.bad)
-    histories(ob, C.seed())
-    n_hist = ob.n - n_sym
-    bounded_ids = {b[0] for b in ob.bad[nb0:]}
-    res = C.pool_map(shard, [(s, m) for s in O.systems() for m in (False, True)])
+    hres = O.concolic_map(histories_shard, [C.seed()])[0]
+    n_hist = hres[0]
+    ob.n += n_hist
+    ob.bad += hres[1]
+    bounded_ids = {b[0] for b in hres[1]}
+    res = O.concolic_map(shard, [(s, m) for s in O.systems() for m in (False, True)])
+    n_concolic = sum(1 for r in res + [hres] if r[-1])
     n_obj = sum(r[0] for r in res)
     n = ob.n + n_obj
     bad = ob.bad + [b for r in res for b in r[1]]
@@ -328,6 +336,9 @@ def main(argv):
     coverage = dict(obligations=n_p - nk, discharged=n_p - (len(bad) - nbad_b), obligations_posed=n_p, known_findings=nk,
                     by_backend={"term identity / object identity (object backend on symbolic coordinates)": n_obj, "SymPy backend (symbolic expressions)": n_sym - 2,
                                 "control-flow check of _replace_data (AST)": 2},
+                    concolic_fallback=dict(shards_re_run_with_concrete_values=n_concolic, valuations=list(O.VALUATIONS),
+                                           note="0 = every obligation decided parametrically (the code never inspects a coordinate value); otherwise the shards whose code inspects a value were "
+                                                "re-run along the paths of these concrete valuations (BOUNDED)"),
                     bounded_random_histories=dict(evaluations=n_hist, failed=nbad_b, label="BOUNDED cross-check of the induction - not counted in obligations / discharged"),
                     exhaustive=True, checker_cmd=f"./check C15 --tier {C.tier()}",
                     trusted_base=["parametricity of the object backend in its coordinate values", "induction over the length of the history from per-step contracts under the representation invariant", "CPython"],
@@ -346,8 +357,10 @@ def replay(prop, rp, path):
     import re
     oid = rp["first"]["obligation"]
     m = re.search(r"\[([a-z,]+)\|(mom|gen)\]", oid)
-    if m and not oid.startswith("C15/sympy"):
-        bad = shard((tuple(m.group(1).split(",")), m.group(2) == "mom"))[1]
+    if oid.startswith("C15/history/"):
+        bad = O._concolic_worker((__name__, "histories_shard", rp.get("seed", C.seed())))[1]
+    elif m and not oid.startswith("C15/sympy"):
+        bad = O._concolic_worker((__name__, "shard", (tuple(m.group(1).split(",")), m.group(2) == "mom")))[1]
     else:
         ob = O.Obligations("C15"); replace_data_control_flow(ob); sympy_part(ob); bad = ob.bad
     hit = [b for b in bad if b[0] == oid]
